@@ -26,6 +26,7 @@ import (
 	"sort"
 	"strings"
 	"sync"
+	"syscall"
 	"time"
 
 	"golang.org/x/sys/unix"
@@ -462,6 +463,10 @@ func (m *memFS) Link(oldname, newname string) error {
 	target, err := m.getNode(oldname)
 	if err != nil {
 		return os.ErrNotExist
+	}
+	if target.dir {
+		// a second name for a directory would make the tree a graph (a directory inside itself never stops a walk)
+		return &os.LinkError{Op: "link", Old: oldname, New: newname, Err: syscall.EPERM}
 	}
 	anode.mu.Lock()
 	defer anode.mu.Unlock()
